@@ -44,15 +44,53 @@ def run(run):
     EV = F.variants(edge)
     run.floor("Edge variants", len(EV), 8)
 
+    def r1_filter_form():
+        """the successors are put on the worklist by an iterator chain: worklist.extend(graph.edges(n).filter(keep)...). An edge
+        kind is followed unless one of the filter predicates is false for it (predicates and the helpers they call are
+        evaluated with every Edge-typed value specialised to that kind)"""
+        from .lib import peval as PE
+        from .lib import bindsrc as B
+        roots = B.bodies(F, f_reach)
+        grows = [x for x in T.walk_fn(F, f_reach) if T.is_call(x, ("extend", "push", "append", "extend_from_slice")) and x.get("a") and "worklist" in T.show(x["a"][0])]
+        site = F.loc(f_reach["body"])
+        filters = []
+        for g in grows:
+            if len(g["a"]) < 2:
+                continue
+            for src, how in B.sources(F, roots, g["a"][1]):
+                for x in T.walk(src):
+                    if T.is_call(x, ("filter", "take_while", "skip_while")) and len(x["a"]) == 2 and T.peel(x["a"][1]).get("k") == "Closure" and any(T.is_call(y, ("edges", "edges_directed")) for s2, h2 in B.sources(F, roots, x["a"][0]) for y in T.walk(s2)):
+                        c = F.by_path.get(T.peel(x["a"][1])["d"])
+                        if c is not None and not any(c is f_ for f_ in filters):
+                            filters.append(c)
+        if not grows or not filters:
+            run.undecided("R1", "edge-kinds", "neither a loop with a match over Edge nor a filter chain that feeds the worklist was found in is_sink_call_reachable_from_source_call", site)
+            return
+        for v in EV:
+            def assume(n, v=v):
+                ty = (F.ty(n) or "").replace("&", "").strip()
+                if "graph::Edge" in ty and ty.split("<")[0].endswith("graph::Edge") and n.get("k") in ("Var", "Upvar", "Deref", "Call", "Field"):
+                    return ("enum", v)
+                return None
+            vals = [PE.Spec(F, assume=assume, scope=roots).cev(c["body"], {}) for c in filters]
+            dropped = any(x == ("bool", False) for x in vals)
+            surely = all(x == ("bool", True) for x in vals)
+            want = v not in LEAVING
+            if want and dropped:
+                run.violated("R1", "edge|%s" % v, "Edge::%s stays inside the function; a filter on the way to the worklist drops this edge kind" % v, site)
+            elif not want and surely:
+                run.violated("R1", "edge|%s" % v, "Edge::%s leaves the function; the search follows it (every filter keeps this edge kind)" % v, site)
+            elif not want and not dropped:
+                run.undecided("R1", "edge|%s" % v, "whether Edge::%s is filtered out is not decided (%s)" % (v, vals), site)
+            else:
+                run.holds("R1", "edge|%s" % v, "", site)
+
     def r1():
         from .lib import peval as PE
         ms = T.find_matches(f_reach["body"], adt_suffix="graph::Edge")
-        if not ms:
-            raise T.AnchorMissing("no match over Edge in is_sink_call_reachable_from_source_call")
-        # the loop over the outgoing edges of the node taken from the worklist
         loops = [(n, p_, it, b) for (n, p_, it, b) in T.for_loops(f_reach["body"]) if any(T.is_call(x, ("edges", "edges_directed")) for x in T.walk(it))]
-        if not loops:
-            raise T.AnchorMissing("no loop over graph.edges(node) in is_sink_call_reachable_from_source_call")
+        if not ms or not loops:
+            return r1_filter_form()
         body = loops[0][3]
         scrutinees = {id(T.peel(m["e"])) for m in ms} | {id(m["e"]) for m in ms}
         wild = any(T.WILD in T.pat_variant_names(a["p"]) for m in ms for a in m["arms"]) and not any(not (T.pat_variant_names(a["p"]) - {T.WILD}) and False for m in ms for a in m["arms"])
@@ -203,7 +241,27 @@ def run(run):
                     if is_call(ct, "insert") and pol:
                         guarded = True
             run.check("R2", "push-guarded-by-visited|%d" % n, guarded, "a node is pushed to the worklist without testing the visited set (non-termination on loops)", F.loc(node))
-        run.floor("worklist pushes", n, 1)
+        if n == 0:
+            # iterator-chain form: worklist.extend(.. .filter(|n| visited.insert(*n)))
+            from .lib import bindsrc as B
+            roots_ = B.bodies(F, f_reach)
+            grows = [x for x in T.walk_fn(F, f_reach) if T.is_call(x, ("extend", "append")) and x.get("a") and "worklist" in T.show(x["a"][0]) and len(x["a"]) == 2]
+            if not grows:
+                run.undecided("R2", "push-guarded-by-visited", "no growth of the worklist found", site)
+            for i_, g in enumerate(grows):
+                guarded = False
+                for src, how in B.sources(F, roots_, g["a"][1]):
+                    for x in T.walk(src):
+                        if T.is_call(x, "filter") and len(x["a"]) == 2 and T.peel(x["a"][1]).get("k") == "Closure":
+                            c = F.by_path.get(T.peel(x["a"][1])["d"])
+                            if c is not None:
+                                ct = S.value(S.Sym(F).term(c["body"]))
+                                pol = True
+                                while ct[0] == "not":
+                                    ct, pol = ct[1], not pol
+                                if (is_call(ct, "insert") and pol) or (is_call(ct, "contains") and not pol):
+                                    guarded = True
+                run.check("R2", "push-guarded-by-visited|%d" % (i_ + 1), guarded, "nodes are added to the worklist without testing the visited set (non-termination on loops)", F.loc(g))
 
     run.guarded("R2", r2)
 
